@@ -5,6 +5,7 @@ package zverif
 // members and liars.
 
 import (
+	"strings"
 	"bytes"
 	"context"
 	"encoding/hex"
@@ -270,7 +271,10 @@ func (e *daemonEngine) checkFollower(n *dNode, plan *FollowPlan, healAt time.Tim
 	e.rec.Count("probe:follow_checked", 1)
 	if elapsed >= bound && last+1 < target {
 		facts := "behind"
-		if plan.InfoLiarLast {
+		if ended && ferr != nil && strings.Contains(ferr.Error(), "unable to get chain info") {
+			// the call returned an error to the operator before any sync started
+			facts = "gave-up-when-no-peer-answered-the-chain-info-request"
+		} else if plan.InfoLiarLast {
 			facts = "last-peer-gives-another-chain-info"
 		} else if !ended {
 			facts = "still-running-but-stuck"
@@ -303,7 +307,10 @@ func (e *daemonEngine) checkChain(n *dNode, plan *CheckPlan) {
 	// corrupt the store at rest (the beacon keeps running: only rounds well below the head)
 	r := NewRng(H64(e.sc.Seed, "corrupt", n.idx))
 	want := map[uint64]bool{}
-	for k := 0; k < plan.Corrupt; k++ {
+	mem := e.sc.Backend == "memdb"
+	// (the in-memory ring is not corrupted: every round it has forgotten already "cannot be read back", and a ring
+	// cannot take them back; what is checked there is that check and repair leave the window whole - C01, C02)
+	for k := 0; k < plan.Corrupt && !mem; k++ {
 		round := uint64(r.Range(1, int(last.Round)-3))
 		if want[round] {
 			continue
@@ -364,7 +371,7 @@ func (e *daemonEngine) checkChain(n *dNode, plan *CheckPlan) {
 	n.mu.Unlock()
 	e.rec.Count("probe:check_chain_runs", 1)
 	e.rec.Ev("check_chain_end", n.addr, "err=%v reported=%d puts=%v", cerr, reported, puts)
-	if !gotReport {
+	if !gotReport || mem {
 		return
 	}
 	if int(reported) != len(wantList) {
